@@ -17,7 +17,9 @@ Word(bits) == LET v == [k \in 0..3 |-> FoldSet(LAMBDA b, s : s + (IF b \div 8 = 
 BitSets == {{}} \cup {{i} : i \in 0..31} \cup {{i, j} : i \in 0..7, j \in 24..31} \cup {0..31}
 FlagBodies == {Word(a) \o Word({}) \o Fixed : a \in BitSets} \cup {Word({}) \o Word(s) \o Fixed : s \in BitSets}
 
-Ids == {1, 2, 3, 4, 5, 6, 17, 18, 19, 37, 42, 43, 48, 49, 20, 225}      \* 0x14 and 0xE1 are not standard items
+\* not standard items (kept verbatim, whatever follows them is still decoded): 0x00, 0x07, 0x14, 0x64 and 0x70 (vendor extensions
+\* without a registered decoder), 0xE0, 0xE1, 0xFF
+Ids == {1, 2, 3, 4, 5, 6, 17, 18, 19, 37, 42, 43, 48, 49} \cup {0, 7, 20, 100, 112, 224, 225, 255}
 Lens(id) == IF id \in DOMAIN Admissible
             THEN UNION {{n - 1, n, n + 1} : n \in Admissible[id]} \cup {0}
             ELSE {0, 3}
